@@ -48,20 +48,24 @@ func (node *tagForNode) Execute(ctx *ExecutionContext, writer TemplateWriter) (f
 		// There's something to iterate over (correct type and at least 1 item)
 
 		// Update loop infos and public context
+		// Every iteration gets its own record: values taken from it earlier
+		// (by set, with, ifchanged, macro arguments) must not change when the
+		// loop advances.
+		loopInfo = &tagForLoopInformation{
+			Counter:     idx + 1,
+			Counter0:    idx,
+			Revcounter:  count - idx,
+			Revcounter0: count - (idx + 1),
+			First:       idx == 0,
+			Last:        idx+1 == count,
+			Parentloop:  loopInfo.Parentloop,
+		}
+		forCtx.Private["forloop"] = loopInfo
+
 		forCtx.Private[node.key] = key
 		if value != nil {
 			forCtx.Private[node.value] = value
 		}
-		loopInfo.Counter = idx + 1
-		loopInfo.Counter0 = idx
-		if idx == 1 {
-			loopInfo.First = false
-		}
-		if idx+1 == count {
-			loopInfo.Last = true
-		}
-		loopInfo.Revcounter = count - idx        // TODO: Not sure about this, have to look it up
-		loopInfo.Revcounter0 = count - (idx + 1) // TODO: Not sure about this, have to look it up
 
 		// Render elements with updated context
 		err := node.bodyWrapper.Execute(forCtx, writer)
